@@ -169,6 +169,72 @@ func (s *c19Sink) healthAt(id uint32, i int) c19HealthLog {
 	return s.health[id][i]
 }
 
+// ---- channel configurations that must not change what sweeps and health checks do ----------
+// logger: 0 none (ChannelOptions.Logger nil: the library default), 1 tchannel.NullLogger,
+//
+//	2 the recording logger behind NewLevelLogger(.., LogLevelInfo) (debug off, Enabled(Debug) = false),
+//	3 the recording logger itself (Enabled() true for every level)
+//
+// stats:  0 none (StatsReporter nil), 1 a recording reporter
+// The configuration is NOT part of the model's input: the model has one behaviour, every
+// configuration is compared with it and judged by the same oracle.  With logger 0 / 1 the health
+// loop's own report of its counter (the fields of its Warn line) does not exist: the harness then
+// keeps the count itself (c.fails) and waits for the loop by the history total / the done channel.
+type c19Cfg struct{ logger, stats int }
+
+var c19CfgSeq int
+
+// the configurations are dealt round-robin over the cases of a run (all 8 equally often)
+func c19NextCfg() c19Cfg {
+	k := c19CfgSeq
+	c19CfgSeq++
+	return c19CfgAt(k)
+}
+func c19CfgAt(k int) c19Cfg {
+	// (k%4, (k/4)%2) would give directed pairs of cases the same stats setting: mix
+	return c19Cfg{logger: k % 4, stats: ((k / 4) + k) % 2}
+}
+func (g c19Cfg) String() string { return fmt.Sprintf("L%dS%d", g.logger, g.stats) }
+func (g c19Cfg) quiet() bool    { return g.logger < 2 }
+func c19LoggerName(k int) string {
+	return []string{"nil (library default)", "NullLogger", "level logger at Info (debug off)", "recording logger, all levels on"}[k]
+}
+
+type c19Stats struct {
+	mu sync.Mutex
+	n  map[string]int64
+}
+
+func (s *c19Stats) rec(name string, v int64) {
+	s.mu.Lock()
+	if s.n == nil {
+		s.n = map[string]int64{}
+	}
+	s.n[name] += v
+	s.mu.Unlock()
+}
+func (s *c19Stats) IncCounter(name string, tags map[string]string, value int64)  { s.rec(name, value) }
+func (s *c19Stats) UpdateGauge(name string, tags map[string]string, value int64) { s.rec(name, 1) }
+func (s *c19Stats) RecordTimer(name string, tags map[string]string, d time.Duration) {
+	s.rec(name, 1)
+}
+
+func (g c19Cfg) apply(opts *tchannel.ChannelOptions, sink *c19Sink) {
+	switch g.logger {
+	case 0:
+		opts.Logger = nil
+	case 1:
+		opts.Logger = tchannel.NullLogger
+	case 2:
+		opts.Logger = tchannel.NewLevelLogger(c19Logger{sink: sink}, tchannel.LogLevelInfo)
+	default:
+		opts.Logger = c19Logger{sink: sink}
+	}
+	if g.stats == 1 {
+		opts.StatsReporter = &c19Stats{}
+	}
+}
+
 // net.Conn whose Write can be made to stall (the wedged-connection case)
 type c19StallConn struct {
 	net.Conn
@@ -295,6 +361,7 @@ type c19TL struct {
 	block      *c19Block
 	conns      []*c19Conn
 	relayMode  bool
+	cfg        c19Cfg
 
 	idleInterval, maxIdle      int64
 	hInterval, hTimeout, hFail int64
@@ -1049,6 +1116,8 @@ func (t *c19TL) evPingStart(c *c19Conn, wedge bool) {
 	}
 	if n := t.sink.healthCount(c.connID); n > nlog {
 		c.fails = t.sink.healthAt(c.connID, n-1).cf
+	} else if t.cfg.quiet() && t.state(c).HealthTotal > c.pingTotal0 {
+		c.fails++ // (no log line with this logger: the loop recorded a failed ping, own count)
 	}
 	t.ev(7, int64(c.id), 0)
 	t.obsHealth(c)
@@ -1112,6 +1181,32 @@ func (t *c19TL) evPingEnd(c *c19Conn, kind int, code byte) {
 			t.fail("health check of connection %d got a cancelled ping and did not stop", c.id)
 		}
 	case "fail":
+		if t.cfg.quiet() {
+			// the logger shows nothing: the count is the harness's own, the loop is waited for by
+			// its done channel -- which it closes iff it closed the connection (or was stopped)
+			c.fails++
+			if c.fails >= t.effF {
+				select {
+				case <-done:
+				case <-time.After(4 * time.Second):
+					t.fail("health check of connection %d (logger configuration %v) had %d consecutive failures (FailuresToClose %d) and has neither closed the connection nor returned after 4s", c.id, t.cfg, c.fails, t.effF)
+				}
+			} else {
+				// it must go back to waiting for its ticker; a loop that wrongly closes does so at
+				// once (later events and the final state catch a slower one)
+				dl := time.Now().Add(3 * time.Millisecond)
+			quiet:
+				for time.Now().Before(dl) {
+					select {
+					case <-done:
+						break quiet
+					default:
+						time.Sleep(50 * time.Microsecond)
+					}
+				}
+			}
+			break
+		}
 		dl := time.Now().Add(2 * time.Second)
 		for t.sink.healthCount(c.connID) == nlog && time.Now().Before(dl) {
 			time.Sleep(50 * time.Microsecond)
@@ -1155,10 +1250,10 @@ func (t *c19TL) evPingEnd(c *c19Conn, kind int, code byte) {
 	if t.effF >= 1 {
 		wantClose := class == "fail" && !c.oStopped && int64(c.oConsec) == t.effF
 		if wasActive && wantClose && st.State == 1 {
-			t.fail("connection %d had %d consecutive health check failures (FailuresToClose %d) and is still Active", c.id, c.oConsec, t.effF)
+			t.fail("connection %d had %d consecutive health check failures (FailuresToClose %d) and is still Active (channel configuration %v)", c.id, c.oConsec, t.effF, t.cfg)
 		}
 		if wasActive && !wantClose && st.State != 1 {
-			t.fail("connection %d was closed by its health check after %d consecutive failures (%s result), FailuresToClose is %d", c.id, c.oConsec, class, t.effF)
+			t.fail("connection %d was closed by its health check after %d consecutive failures (%s result), FailuresToClose is %d (channel configuration %v: logger %s)", c.id, c.oConsec, class, t.effF, t.cfg, c19LoggerName(t.cfg.logger))
 		}
 		if class == "fail" && c.fails != int64(c.oConsec) && !c.oStopped {
 			t.fail("health check of connection %d reports %d consecutive failures, the results so far give %d", c.id, c.fails, c.oConsec)
@@ -1267,8 +1362,9 @@ func c19RunTimeline(rng *rand.Rand, idx int, tier string, o *Out) {
 	if wedgePlanned {
 		copts.SendBufferSize = 1
 	}
+	t.cfg = c19NextCfg()
 	opts := &tchannel.ChannelOptions{
-		TimeNow: t.clock.Now, TimeTicker: t.tickers.New, Logger: c19Logger{sink: t.sink},
+		TimeNow: t.clock.Now, TimeTicker: t.tickers.New,
 		IdleCheckInterval: time.Duration(t.idleInterval), MaxIdleTime: time.Duration(t.maxIdle),
 		DefaultConnectionOptions: copts,
 		Dialer: func(ctx context.Context, network, hp string) (net.Conn, error) {
@@ -1285,8 +1381,10 @@ func c19RunTimeline(rng *rand.Rand, idx int, tier string, o *Out) {
 	if t.relayMode {
 		opts.RelayHost = &c19RelayHost{}
 	}
+	t.cfg.apply(opts, t.sink)
 	in := []int64{t.idleInterval, t.maxIdle, t.hInterval, t.hTimeout, t.hFail, t.t0}
-	id := fmt.Sprintf("t%d", idx)
+	id := fmt.Sprintf("t%d-%v", idx, t.cfg)
+	o.Hist("tl:cfg=" + t.cfg.String())
 	ch, err := tchannel.NewChannel("verif-c19", opts)
 	if err != nil {
 		verdict := ""
